@@ -112,6 +112,15 @@ CHECKS = {
             "property-preserving transforms and rtol/atol variants; helper identities exact on prime-filled operands (vec/unvec, vec(AXB), tensor forms), Gram round "
             "trip (real / complex, PD / rank-deficient), commutant dimension and commutation, majorizes on all pairs of partitions of 6, spark vs brute force, norms vs SVD.",
             "three-valued oracle (inside-margin inputs not judged); spec-ambiguous docstrings not judged; sizes <= 4 (thorough 6)"),
+    "C14": ("exploration",
+            "exhaustive enumeration of Schmidt-coefficient partitions x local bases x dims x argument forms on the real code vs closed forms",
+            "Bipartite pure states sum s_i |a_i>|b_i> for ALL partitions of 6 (thorough 6 and 8) into <= min(d) parts, local dims {2,3}^2 (thorough {2,3,4}^2, unequal "
+            "included), local bases from every catalogue unitary (structured + seed-derived, complex), inputs as 1-D / column / density matrix, dim as list / ndarray / "
+            "int / omitted, k = 1..min(d): negativity, log-negativity, EoF, concurrence, Schmidt rank, S(k) vector norm, l1-coherence vs closed forms in s_i; "
+            "schmidt_decomposition rebuilds the state with orthonormal factors; mixed states vs independent definitions; local-unitary invariance of every quantity; "
+            "entropy additivity on all catalogue pairs; is_product on bi- and tripartite vectors / operators; sk_operator_norm brackets every enumerated "
+            "vector of Schmidt rank <= k with numpy's global seed as an explicit axis; is_block_positive on closed-form cases.",
+            "l1-coherence invariance only under local monomial unitaries (the literal local-unitary claim is mathematically false, see ASSUMPTIONS); finite alphabets"),
 }
 
 PENDING_REASON = "check not built yet in this session (work in progress; see DESIGN.md section 7 for the planned exploration)"
